@@ -232,6 +232,11 @@ def compare(prog, d, rho, gg, oc, stats):
         return [('C01/definition-without-its-side-effect-units',
                  f'the function creates {n_eff} output / side-effecting units, '
                  f'the definition has no unit at all')]
+    bad = [c for c in d.constants if c != c or abs(c) == float('inf')]
+    if bad:
+        # no generated program contains such a constant
+        return [('C01/non-finite-constant',
+                 f'constants {d.constants} (the source has finite ones only)')]
     dec = DecodedEval(d, rho, gg, oc)
     if dec.structural:
         return dec.structural[:1]
@@ -399,7 +404,9 @@ def width_first_order(d, prog, gg, stats):
         for w in u.inputs:
             if w[0] == 'c':
                 c = d.constants[w[1]]
-                if c == int(c) and int(c) in tags:
+                if c == c and abs(c) < 1e9 and c == int(c) \
+                        and int(c) in tags and gg.tag_belongs_to(
+                        prog['nodes'][tags[int(c)]], u.cls):
                     pos.append((u.index, tags[int(c)], u))
                     break
     for pw, nw, w in pos:
@@ -419,6 +426,7 @@ def width_first_order(d, prog, gg, stats):
 # ---------------------------------------------------------------------------
 # counters of fired optimiser paths (evidence only)
 # ---------------------------------------------------------------------------
+FOLDED_KEY = 'C01/operand-folded-to-python-number'
 LOST_IN_SORT = []     # names of units the last build's topological sort dropped
 ORPHAN_KINDS = []     # why units read by the graph were not part of it
 _HISTORY = {'removed': [], 'replaced': [], 'installed': []}
@@ -521,6 +529,65 @@ def raise_site(e):
     return ':'.join(sites[-1]) if sites else 'graph-function'
 
 
+class no_folding:
+    """Attribution probe (keys only, never a verdict): inside this context the
+    two constructor shortcuts that hand a Python number back to the graph
+    function (`x * 0 -> 0.0`, `x.madd(0, c) -> c`) are switched off, everything
+    else is the library as it is.  A violation of a program of the lifted class
+    that disappears here is attributable to the folded operand."""
+
+    def __enter__(self):
+        from sc3.synth import ugen as ugn
+        self.ugn = ugn
+        self.saved = (ugn.BinaryOpUGen.__dict__['_new1'],
+                      ugn.MulAdd.__dict__['_new1'])
+        bin_orig = self.saved[0].__func__
+        mad_orig = self.saved[1].__func__
+        plain = ugn.SynthObject.__dict__['_new1'].__func__
+
+        def is_zero(x):
+            return isinstance(x, (int, float)) and x == 0
+
+        def bin_new1(cls, rate, selector, a, b):
+            if selector == '*' and (is_zero(a) or is_zero(b)) and not (
+                    isinstance(a, (int, float)) and isinstance(b, (int, float))):
+                return plain(cls, rate, selector, a, b)
+            return bin_orig(cls, rate, selector, a, b)
+
+        def mad_new1(cls, rate, input, mul, add):
+            if is_zero(mul):
+                if is_zero(add):
+                    return input * mul
+                if cls._can_be_muladd(input, mul, add):
+                    return plain(cls, rate, input, mul, add)
+                return (input * mul) + add
+            return mad_orig(cls, rate, input, mul, add)
+        ugn.BinaryOpUGen._new1 = classmethod(bin_new1)
+        ugn.MulAdd._new1 = classmethod(mad_new1)
+        return self
+
+    def __exit__(self, *a):
+        self.ugn.BinaryOpUGen._new1, self.ugn.MulAdd._new1 = self.saved
+        return False
+
+
+def attributable_to_folding(prog, gg, oc, scgf, seed_key):
+    """the program is of the lifted class and is compiled faithfully once
+    the library does not fold `x*0` / `madd(0, c)` to a Python number"""
+    if not (prog.get('folding_agnostic') and prog.get('foldable_nodes')):
+        return False
+    try:
+        with no_folding():
+            d = scgf.parse(bytes(gg.build(prog).as_bytes()))
+        for k in range(2):
+            rho = gg.Rho(f'{seed_key}-cf-{k}'.encode(), gg.PRIMES[k])
+            if compare(prog, d, rho, gg, oc, Counter()):
+                return False
+        return not width_first_order(d, prog, gg, Counter())
+    except Exception:
+        return False
+
+
 def mechanism_suffix(prog, exc=None, site=None):
     """class of input that names the mechanism of a failure (keys only)"""
     feats = prog.get('features', ())
@@ -532,19 +599,9 @@ def mechanism_suffix(prog, exc=None, site=None):
         if 'array-control-arithmetic' in feats and any(
                 t in safe(str, exc) for t in ('list', 'sequence')):
             return '/array-control-is-a-plain-list'
-        if prog.get('folding_agnostic') and prog.get('foldable_nodes'):
-            msg = safe(str, exc)
-            if isinstance(exc, ZeroDivisionError) or (
-                    isinstance(exc, (AttributeError, TypeError)) and any(
-                        t in msg for t in ("'float'", "'int'", "'bool'"))):
-                return '/operand-folded-to-number'
-            if isinstance(exc, ValueError) and 'rate' in msg:
-                return '/operand-folded-to-number'
         return ''
     if 'array-control-arithmetic' in feats:
         return '/array-control-arithmetic'
-    if prog.get('folding_agnostic') and prog.get('foldable_nodes'):
-        return '/operand-folded-to-number'
     return ''
 
 
@@ -578,10 +635,17 @@ def run_shard(spec, acc):
         except Exception as e:
             site = raise_site(e)
             acc.case(sig, nontrivial=sum(fired.values()) > f0)
-            acc.violation(f'C01/compile-raises/{type(e).__name__}/{site}'
-                          + mechanism_suffix(prog, e, site),
-                          {'case': i, 'error': f'{type(e).__name__}: '
-                                                + safe(lambda: str(e)[:300]),
+            key = f'C01/compile-raises/{type(e).__name__}/{site}' \
+                + mechanism_suffix(prog, e, site)
+            manifestation = key
+            if attributable_to_folding(prog, gg, oc, scgf,
+                                       f'{spec["seed"]}-{i}'):
+                key = FOLDED_KEY
+                acc.count('folded_operand_' + f'{type(e).__name__}@{site}')
+            acc.violation(key,
+                          {'case': i, 'manifestation': manifestation,
+                           'error': f'{type(e).__name__}: '
+                                    + safe(lambda: str(e)[:300]),
                            'script': gg.script(prog),
                            'tb': safe(short_tb, e, 5)})
             continue
@@ -623,7 +687,13 @@ def run_shard(spec, acc):
             if not key.startswith(('C01/arith-rate', 'C01/width-first',
                                    'C01/opcode')):
                 key += mechanism_suffix(prog)
+            manifestation = key
+            if attributable_to_folding(prog, gg, oc, scgf,
+                                       f'{spec["seed"]}-{i}'):
+                key = FOLDED_KEY
+                acc.count('folded_operand_' + manifestation.split('/')[1])
             acc.violation(key, {'case': i, 'rho': k, 'detail': detail,
+                                'manifestation': manifestation,
                                 'script': gg.script(prog),
                                 'definition': d.describe()['units']})
         if acc.want_sample() and 6 <= len(prog['nodes']) <= 18 \
